@@ -1108,6 +1108,10 @@ def oracle_whole(pid, sc, ob):
         if want is not None and len(want) == 1 and st != 206:
             return "matching strong If-Range but status %d" % st
         return None
+    if pid in ("C02", "C06") and method == "GET" and term == "E" and not sc.get("scripts") and st in (200, 206):
+        # the scripted entity delivered every requested range correctly (default scripts), yet the body aborted
+        if (pid == "C06") == (st == 206 and cr is None):
+            return "the entity delivered its ranges correctly, yet the %s body reported an error instead of the bytes" % ("multipart" if cr is None and st == 206 else str(st))
     if pid == "C02" and method == "GET" and term == "N":
         if st == 200 and body != entity_bytes(0, L):
             return "200 body differs from the entity bytes"
